@@ -112,6 +112,9 @@ Again == /\ pc = "done" /\ round < Rounds /\ round' = round + 1
 
 Next == Begin \/ Pick \/ Step("left") \/ EndLeft \/ Step("right") \/ EndRight \/ Panic \/ Finish \/ Again
 Spec == Init /\ [][Next]_vars
+\* liveness: every round terminates (the walk cannot run for ever)
+FairSpec == Spec /\ WF_vars(Next)
+Terminates == <>(pc \in {"done", "panic"})
 
 Valid == pc = "done" => GraphFails(K, Stranded, Mode, T, out) = {}
 NoPanic == pc # "panic"
